@@ -201,6 +201,10 @@ func (b *batch) absorb(res *childResult, hashFile string) {
 			b.sitesTotal = s.SitesTotal
 		}
 		for k, v := range s.Extra {
+			if k == "stopped_at_deadline" {
+				b.extra["deadline_reached"] = true
+				continue
+			}
 			if f, ok := v.(float64); ok {
 				if old, ok := b.extra[k].(float64); ok {
 					b.extra[k] = old + f
@@ -260,10 +264,10 @@ func fanOutSeeds(b *batch, bin string, prop, tier string, seed uint64, total uin
 				if stall > 0 {
 					args = append(args, "--stall", stall.String())
 				}
-				to := time.Until(deadline)
-				if to < time.Second {
-					to = time.Second
-				}
+				// the child stops by itself at the deadline and reports what it ran; the kill
+				// timer is only the back-stop for a child that cannot (one very long run)
+				args = append(args, "--until", fmt.Sprint(deadline.UnixNano()))
+				to := time.Until(deadline) + 45*time.Second
 				res := runChild(childOpts{bin: bin, args: args, env: env, timeout: to, memKB: memKB})
 				b.absorb(res, hashFile)
 				if res.summary != nil {
@@ -323,10 +327,8 @@ func fanOutEnum(b *batch, bin string, prop, tier string, shards int, env []strin
 			if stall > 0 {
 				args = append(args, "--stall", stall.String())
 			}
-			to := time.Until(deadline)
-			if to < time.Second {
-				to = time.Second
-			}
+			args = append(args, "--until", fmt.Sprint(deadline.UnixNano()))
+			to := time.Until(deadline) + 45*time.Second
 			res := runChild(childOpts{bin: bin, args: args, env: env, timeout: to, memKB: memKB})
 			b.absorb(res, hashFile)
 			if res.summary == nil {
